@@ -48,7 +48,21 @@ class Verifier(Engine):
         self.number_loops(fr, fdef)
         real_params = [a.arg for a in list(fdef.args.posonlyargs) + list(fdef.args.args) + list(fdef.args.kwonlyargs)]
         cparams = [p for p, _ in contract.params]
-        if cparams != real_params:
+        fr.body = fdef.body
+        if contract.slice is not None:
+            # a statement range of the real function, cut out mechanically on every run; everything outside it is dropped
+            first, last = contract.slice
+            texts = [ast.unparse(s_).strip() for s_ in fdef.body]
+            ia = [k for k, t in enumerate(texts) if t.startswith(first)]
+            ib = [k for k, t in enumerate(texts) if t.startswith(last)]
+            if len(ia) != 1 or len(ib) != 1 or ib[0] < ia[0]:
+                raise Unsupported(f"slice anchors not found exactly once in {contract.target}: {first!r} .. {last!r}")
+            fr.body = fdef.body[ia[0]:ib[0] + 1]
+            fr.dropped.append((f"slice: only statements L{fr.body[0].lineno}-L{fr.body[-1].end_lineno} of {contract.target} are analysed; "
+                               f"{len(fdef.body) - len(fr.body)} top-level statements outside it are dropped", fdef.lineno))
+            if not set(cparams) <= set(real_params):
+                raise Unsupported(f"slice contract parameters {cparams} are not parameters of the function {real_params}")
+        elif cparams != real_params:
             raise Unsupported(f"contract parameters {cparams} do not match the function's {real_params}")
         fr.anchors_used = set()
         fr.partial_error = None
@@ -178,6 +192,12 @@ class Verifier(Engine):
             v, facts = sym_value(lname, parse_type(lty))
             st.env[lname] = v
             st.assume(*facts)
+        if c.slice is not None:
+            # values computed before the slice are arbitrary inputs of the declared type
+            from .heapmodel import sym_field
+            for lname, lty in c.locals.items():
+                if lname not in st.env:
+                    st.env[lname] = sym_field(self, st, lname, lty)
         ac = fresh("aes_calls", I)
         st.env["aes_calls"] = VInt(ac)
         st.assume(ac >= 0)
@@ -205,7 +225,7 @@ class Verifier(Engine):
         fr.init_state = st.fork()        # entry ghost bindings (let) are visible to old(...) and to `when=` clauses
         fr.handlers = []
         fr.fn_exits_exc = []
-        outcomes = self.ex_block(fr.fdef.body, st)
+        outcomes = self.ex_block(fr.body, st)
         for s, sig in outcomes:
             if sig is not None and sig.kind not in ("return", "yield-first"):
                 raise Unsupported(f"{sig.kind} outside loop")
